@@ -538,3 +538,82 @@ Example run_example :
   let '(s, rs) := run [(1, 10); (2, 20); (1, 11)] [SetItem 1 5; Append 2 21; PopItem; SetDefault 3 7; Pop 9] in
   (l s, rs) = ([(2, 20); (2, 21); (3, 7)], [RNone; RNone; RPair 1 5; RVal 7; RKeyError]).
 Proof. vm_compute. reflexivity. Qed.
+
+(* ---------- update() with the mapping itself (updself: m.update(m), IO.v's rd_op_s gives Update (d s)) ---------- *)
+
+Lemma dset_same k v dd : dget k dd = Some v -> dset k v dd = dd.
+Proof.
+  induction dd as [|[k' v'] r IH]; cbn [dget dset]; [discriminate|].
+  destruct (k' =? k) eqn:E.
+  - intros H. injection H as ->. apply N.eqb_eq in E. subst k'. reflexivity.
+  - intros H. rewrite IH by exact H. reflexivity.
+Qed.
+
+Lemma dget_in_nodup k v dd : NoDup (map fst dd) -> In (k, v) dd -> dget k dd = Some v.
+Proof.
+  induction dd as [|[k' v'] r IH]; cbn [map fst In dget]; [intros _ []|].
+  intros Hn [H|H].
+  - injection H as -> ->. rewrite N.eqb_refl. reflexivity.
+  - inversion Hn as [|x xs Hx Hr]; subst. destruct (k' =? k) eqn:E.
+    + apply N.eqb_eq in E. subst k'. exfalso. apply Hx. apply (in_map fst) in H. exact H.
+    + apply IH; assumption.
+Qed.
+
+Lemma fold_setitem_d_same items : forall s,
+  (forall p, In p items -> dget (fst p) (d s) = Some (snd p)) ->
+  d (fold_left (fun s p => setitem (fst p) (snd p) s) items s) = d s.
+Proof.
+  induction items as [|p r IH]; intros s H; cbn [fold_left]; [reflexivity|].
+  assert (E : d (setitem (fst p) (snd p) s) = d s).
+  { unfold setitem. cbn [d]. apply dset_same. apply H. left; reflexivity. }
+  rewrite IH; [exact E|]. intros q Hq. rewrite E. apply H. right; exact Hq.
+Qed.
+
+Lemma getlist_fold_lset k items : forall a,
+  getlist k (fold_left (fun a p => lset (fst p) (snd p) a) items a) =
+  match last_val k items with Some v => [v] | None => getlist k a end.
+Proof.
+  induction items as [|p r IH]; intros a; cbn [fold_left last_val]; [reflexivity|].
+  rewrite IH. destruct (last_val k r); [reflexivity|].
+  destruct (fst p =? k) eqn:E.
+  - apply N.eqb_eq in E. subst k. apply getlist_lset_same.
+  - apply N.eqb_neq in E. apply getlist_lset_other. congruence.
+Qed.
+
+Lemma last_val_nodup k dd : NoDup (map fst dd) -> last_val k dd = dget k dd.
+Proof.
+  induction dd as [|[k' v'] r IH]; cbn [map fst snd last_val dget]; [reflexivity|].
+  intros Hn. inversion Hn as [|x xs Hx Hr]; subst. rewrite IH by exact Hr.
+  destruct (k' =? k) eqn:E.
+  - apply N.eqb_eq in E. subst k'. apply dget_None_keys in Hx. rewrite Hx. reflexivity.
+  - destruct (dget k r); reflexivity.
+Qed.
+
+Lemma getlist_absent k a : last_val k a = None -> getlist k a = [].
+Proof.
+  unfold getlist. induction a as [|p r IH]; cbn [last_val filter]; [reflexivity|].
+  destruct (last_val k r); [discriminate|]. unfold is_key at 1.
+  destruct (fst p =? k); [discriminate|]. intros _. apply IH. reflexivity.
+Qed.
+
+(* m.update(m): the dict is unchanged, and in the pair list every key is left with exactly one pair, carrying the
+   key's last value (the dict's value); the keys stay where their FIRST pair was in the pair list (lset) — which
+   need not be the order of the dict's keys: see update_self_order_example *)
+Theorem update_self_collapses_proof s : Inv s ->
+  d (fst (step s (Update (d s)))) = d s /\
+  Inv (fst (step s (Update (d s)))) /\
+  (forall k, dget k (d s) = last_val k (l (fst (step s (Update (d s)))))) /\
+  (forall k, v_getlist k (fst (step s (Update (d s)))) =
+             match dget k (d s) with Some v => [v] | None => [] end).
+Proof.
+  intros HI. pose proof (step_inv s (Update (d s)) HI) as HI'. destruct HI as [Hn He].
+  assert (Ed : d (fst (step s (Update (d s)))) = d s).
+  { cbn [step fst]. apply fold_setitem_d_same. intros [k v] Hin. cbn [fst snd].
+    apply dget_in_nodup; assumption. }
+  split; [exact Ed|]. split; [exact HI'|]. split.
+  - intros k. pose proof (proj2 HI' k) as Hk. rewrite Ed in Hk. exact Hk.
+  - intros k. unfold v_getlist. cbn [step fst]. rewrite fold_setitem_l, getlist_fold_lset.
+    rewrite (last_val_nodup k (d s) Hn).
+    destruct (dget k (d s)) eqn:E; [reflexivity|].
+    apply getlist_absent. rewrite <- He. exact E.
+Qed.
